@@ -1,4 +1,5 @@
 import NetVerif.Model.H2Server
+import NetVerif.Gen.C15
 /-!
 C15 — HTTP/2 server obeys stream-state and connection-control rules.
 
@@ -890,5 +891,533 @@ theorem monitor_sound {tr : List Ev} {m : Mon} (h : Mon.run {} tr = some m) :
     OnlyGoodRequestsReachHandler tr ∧ MalformedGetStreamError tr :=
   ⟨accepted_noSendAfterClose h, accepted_handlerBound h, accepted_pingSpec h, settings_partial h,
    accepted_onlyGoodRequestsReachHandler h, accepted_malformedGetStreamError h⟩
+
+
+/-! # Part 2: mechanism models -/
+
+/-! ## scheduleHandler / handlerDone -/
+
+theorem doneLoop_spec (adv : Nat) (live : Nat → Bool) :
+    ∀ (q : List QEntry) (cur c : Nat) (st left : List QEntry),
+      doneLoop adv live cur q = (c, st, left) → cur ≤ adv →
+      c ≤ adv ∧ c = cur + st.length ∧ left.length ≤ q.length ∧ (left ≠ [] → c = adv) ∧
+      (∀ e ∈ st, live e.sid = true) := by
+  intro q
+  induction q with
+  | nil =>
+    intro cur c st left h hle
+    simp [doneLoop] at h
+    obtain ⟨rfl, rfl, rfl⟩ := h
+    simp [hle]
+  | cons e rest ih =>
+    intro cur c st left h hle
+    unfold doneLoop at h
+    by_cases hl : live e.sid = true
+    · simp [hl] at h
+      by_cases hc : cur ≥ adv
+      · simp [hc] at h
+        obtain ⟨rfl, rfl, rfl⟩ := h
+        simp
+        omega
+      · simp [hc] at h
+        cases hr : doneLoop adv live (cur + 1) rest with
+        | mk c' r2 =>
+          obtain ⟨st', left'⟩ := r2
+          simp [hr] at h
+          obtain ⟨rfl, rfl, rfl⟩ := h
+          obtain ⟨k1, k2, k3, k4, k5⟩ := ih (cur + 1) c' st' left' hr (by omega)
+          refine ⟨k1, by simp; omega, by simp; omega, k4, ?_⟩
+          intro x hx
+          cases hx with
+          | head => exact hl
+          | tail _ hm => exact k5 x hm
+    · simp [hl] at h
+      obtain ⟨k1, k2, k3, k4, k5⟩ := ih cur c st left h hle
+      exact ⟨k1, k2, by simp; omega, k4, k5⟩
+
+/-- operations on the scheduler: a request is scheduled, or a handler goroutine has returned
+(`live` = which streams still exist at that moment; arbitrary). -/
+inductive SOp where
+  | schedule (e : QEntry)
+  | done (live : Nat → Bool)
+
+/-- `handlerDone` runs only when a handler goroutine existed (`curHandlers > 0`). -/
+def schedApply (s : Sched) : SOp → Sched
+  | .schedule e => (s.schedule e).1
+  | .done live => if s.cur = 0 then s else (s.done live).1
+
+def SchedInv (s : Sched) : Prop :=
+  s.cur ≤ s.adv ∧ s.queue.length ≤ unstartedFactor * s.adv + 1 ∧ (s.queue ≠ [] → s.cur = s.adv)
+
+theorem schedInv_apply (s : Sched) (op : SOp) (h : SchedInv s) :
+    SchedInv (schedApply s op) ∧ (schedApply s op).adv = s.adv := by
+  obtain ⟨h1, h2, h3⟩ := h
+  unfold unstartedFactor at h2
+  cases op with
+  | schedule e =>
+    simp only [schedApply, Sched.schedule, unstartedFactor]
+    by_cases hc : s.cur < s.adv
+    · simp only [hc, if_true]
+      refine ⟨⟨?_, ?_, ?_⟩, trivial⟩
+      · show s.cur + 1 ≤ s.adv
+        omega
+      · show s.queue.length ≤ unstartedFactor * s.adv + 1
+        unfold unstartedFactor
+        exact h2
+      · show s.queue ≠ [] → s.cur + 1 = s.adv
+        intro hq
+        have := h3 hq
+        omega
+    · simp only [hc, if_false]
+      by_cases hq : s.queue.length > 4 * s.adv
+      · simp only [hq, if_true]
+        exact ⟨⟨h1, by unfold unstartedFactor; exact h2, h3⟩, trivial⟩
+      · simp only [hq, if_false]
+        refine ⟨⟨h1, ?_, ?_⟩, trivial⟩
+        · show (s.queue ++ [e]).length ≤ unstartedFactor * s.adv + 1
+          unfold unstartedFactor
+          simp
+          omega
+        · intro _
+          show s.cur = s.adv
+          omega
+  | done live =>
+    simp only [schedApply]
+    by_cases hz : s.cur = 0
+    · simp only [hz, if_true]
+      exact ⟨⟨h1, by unfold unstartedFactor; exact h2, h3⟩, trivial⟩
+    · simp only [hz, if_false, Sched.done]
+      cases hr : doneLoop s.adv live (s.cur - 1) s.queue with
+      | mk c r2 =>
+        obtain ⟨st, left⟩ := r2
+        obtain ⟨k1, _, k3, k4, _⟩ := doneLoop_spec s.adv live s.queue (s.cur - 1) c st left hr (by omega)
+        refine ⟨⟨?_, ?_, ?_⟩, trivial⟩
+        · show c ≤ s.adv
+          exact k1
+        · show left.length ≤ unstartedFactor * s.adv + 1
+          unfold unstartedFactor
+          omega
+        · show left ≠ [] → c = s.adv
+          exact k4
+
+/-- **Mechanism theorem**: for every history of `scheduleHandler` / `handlerDone` calls,
+`curHandlers ≤ advMaxStreams`, at most `4*advMaxStreams + 1` handlers are queued, and a handler
+is only left queued while all `advMaxStreams` slots are taken. -/
+theorem sched_invariant (adv : Nat) (ops : List SOp) :
+    SchedInv (ops.foldl schedApply { adv := adv }) := by
+  have : ∀ (ops : List SOp) (s : Sched), SchedInv s → SchedInv (ops.foldl schedApply s) := by
+    intro ops
+    induction ops with
+    | nil => intro s h; exact h
+    | cons op r ih => intro s h; exact ih _ (schedInv_apply s op h).1
+  exact this ops _ ⟨by simp, by simp, by simp⟩
+
+/-- the handler start / finish events of one scheduler operation -/
+def schedEvents (s : Sched) : SOp → List Ev
+  | .schedule e => match (s.schedule e).2 with
+    | .started => [.hStart e.sid]
+    | _ => []
+  | .done live => if s.cur = 0 then [] else
+      .hFinish 0 :: (s.done live).2.map (fun e => Ev.hStart e.sid)
+
+def schedTrace : Sched → List SOp → List Ev
+  | _, [] => []
+  | s, op :: r => schedEvents s op ++ schedTrace (schedApply s op) r
+
+theorem runB_starts (r adv : Nat) (l : List QEntry) (h : r + l.length ≤ adv) :
+    runWith stepB ⟨r, adv⟩ (l.map (fun e => Ev.hStart e.sid)) = some ⟨r + l.length, adv⟩ := by
+  induction l generalizing r with
+  | nil => simp [runWith]
+  | cons e t ih =>
+    simp at h
+    have hlt : r < adv := by omega
+    simp [runWith, stepB, hlt]
+    rw [ih (r + 1) (by omega)]
+    simp
+    omega
+
+theorem runWith_append {σ : Type} (step : σ → Ev → Option σ) (s s1 : σ) (a b : List Ev)
+    (h : runWith step s a = some s1) : runWith step s (a ++ b) = runWith step s1 b := by
+  induction a generalizing s with
+  | nil => simp [runWith] at h; subst h; rfl
+  | cons e r ih =>
+    obtain ⟨m, e1, e2⟩ := runWith_cons h
+    simp [runWith, e1]
+    exact ih m e2
+
+/-- **Refinement `mechanism ⊑ monitor`**: the handler events produced by any history of the
+scheduler model are accepted by the handler-bound monitor for the advertised limit. -/
+theorem sched_refines_monitorB (ops : List SOp) (s : Sched) (h : SchedInv s) :
+    ∃ m', runWith stepB ⟨s.cur, s.adv⟩ (schedTrace s ops) = some m' := by
+  induction ops generalizing s with
+  | nil => exact ⟨_, rfl⟩
+  | cons op r ih =>
+    have hinv := schedInv_apply s op h
+    obtain ⟨m', hm'⟩ := ih (schedApply s op) hinv.1
+    simp only [schedTrace]
+    suffices hstep : runWith stepB ⟨s.cur, s.adv⟩ (schedEvents s op) = some ⟨(schedApply s op).cur, (schedApply s op).adv⟩ by
+      exact ⟨m', by rw [runWith_append _ _ _ _ _ hstep]; exact hm'⟩
+    obtain ⟨h1, h2, h3⟩ := h
+    cases op with
+    | schedule e =>
+      simp only [schedEvents, schedApply, Sched.schedule]
+      by_cases hc : s.cur < s.adv
+      · simp [hc, runWith, stepB]
+      · simp [hc]
+        by_cases hq : s.queue.length > unstartedFactor * s.adv <;> simp [hq, runWith]
+    | done live =>
+      simp only [schedEvents, schedApply]
+      by_cases hz : s.cur = 0
+      · simp [hz, runWith]
+      · simp [hz, Sched.done]
+        cases hr : doneLoop s.adv live (s.cur - 1) s.queue with
+        | mk c r2 =>
+          obtain ⟨st, left⟩ := r2
+          obtain ⟨k1, k2, _, _, _⟩ := doneLoop_spec s.adv live s.queue (s.cur - 1) c st left hr (by omega)
+          simp [runWith, stepB, hz]
+          rw [runB_starts (s.cur - 1) s.adv st (by omega)]
+          simp
+          omega
+
+/-! ## the serve loop's accounting -/
+
+/-- invariant of the accounting model for the advertised limit `adv` -/
+def SrvInv (adv : Nat) (s : Srv) : Prop :=
+  s.sched.adv = adv ∧ s.sched.cur ≤ adv ∧ s.running.length ≤ s.sched.cur ∧ s.streams.length ≤ adv
+
+theorem inv_close {adv : Nat} {s : Srv} (h : SrvInv adv s) (sid : Nat) : SrvInv adv (s.closeStream sid) := by
+  obtain ⟨h0, h1, h2, h3⟩ := h
+  have : (s.streams.filter (fun t => t.sid != sid)).length ≤ s.streams.length := List.length_filter_le _ _
+  exact ⟨h0, h1, h2, by show (s.streams.filter _).length ≤ adv; omega⟩
+
+theorem inv_conn {adv : Nat} {s : Srv} (h : SrvInv adv s) (c : Nat) : SrvInv adv (s.connError c).1 := h
+
+theorem inv_map {adv : Nat} {s : Srv} (h : SrvInv adv s) (f : Strm → Strm) :
+    SrvInv adv { s with streams := s.streams.map f } := by
+  obtain ⟨h0, h1, h2, h3⟩ := h
+  exact ⟨h0, h1, h2, by simpa using h3⟩
+
+theorem inv_drain {adv : Nat} (fuel : Nat) : ∀ (s : Srv), SrvInv adv s → SrvInv adv (Srv.drain fuel s).1 := by
+  induction fuel with
+  | zero => intro s h; exact h
+  | succ n ih =>
+    intro s h
+    unfold Srv.drain
+    cases hq : s.sched.queue with
+    | nil => exact h
+    | cons e rest =>
+      obtain ⟨h0, h1, h2, h3⟩ := h
+      have hdrop : SrvInv adv { s with sched := { s.sched with queue := rest } } := ⟨h0, h1, h2, h3⟩
+      simp only
+      by_cases hs : s.hasStream e.sid = true
+      · simp only [hs, Bool.not_true, Bool.false_eq_true, if_false]
+        by_cases hc : s.sched.cur ≥ s.sched.adv
+        · simp only [hc, if_true]
+          exact ⟨h0, h1, h2, h3⟩
+        · simp only [hc, if_false]
+          cases hk : e.kind with
+          | user =>
+            exact ih { s with sched := { s.sched with queue := rest, cur := s.sched.cur + 1 }, running := s.running ++ [e.sid] }
+              ⟨h0, by show s.sched.cur + 1 ≤ adv; omega, by show (s.running ++ [e.sid]).length ≤ s.sched.cur + 1; simp; omega, h3⟩
+          | internal =>
+            exact ih _ (inv_close hdrop e.sid)
+      · simp only [hs, Bool.not_false, if_true]
+        exact ih _ hdrop
+
+/-- `handlerDone` when one more goroutine is counted than user handlers are recorded -/
+theorem inv_handlerDone {adv : Nat} {s : Srv} (h0 : s.sched.adv = adv) (h1 : s.sched.cur ≤ adv)
+    (h2 : s.running.length + 1 ≤ s.sched.cur) (h3 : s.streams.length ≤ adv) :
+    SrvInv adv s.handlerDone.1 := by
+  unfold Srv.handlerDone
+  exact inv_drain _ { s with sched := { s.sched with cur := s.sched.cur - 1 } }
+    ⟨h0, by show s.sched.cur - 1 ≤ adv; omega, by show s.running.length ≤ s.sched.cur - 1; omega, h3⟩
+
+theorem inv_schedule {adv : Nat} {s : Srv} (h : SrvInv adv s) (sid : Nat) (k : HKind) :
+    SrvInv adv (s.schedule sid k).1 := by
+  obtain ⟨h0, h1, h2, h3⟩ := h
+  unfold Srv.schedule Sched.schedule
+  by_cases hc : s.sched.cur < s.sched.adv
+  · simp only [hc, if_true]
+    cases k with
+    | user =>
+      exact ⟨h0, by show s.sched.cur + 1 ≤ adv; omega,
+        by show (s.running ++ [sid]).length ≤ s.sched.cur + 1; simp; omega, h3⟩
+    | internal =>
+      have hcl : (s.streams.filter (fun t => t.sid != sid)).length ≤ s.streams.length := List.length_filter_le _ _
+      exact inv_handlerDone (s := ({ s with sched := { s.sched with cur := s.sched.cur + 1 } } : Srv).closeStream sid)
+        h0 (by show s.sched.cur + 1 ≤ adv; omega) (by show s.running.length + 1 ≤ s.sched.cur + 1; omega)
+        (by show (s.streams.filter _).length ≤ adv; omega)
+  · simp only [hc, if_false]
+    by_cases hq : s.sched.queue.length > unstartedFactor * s.sched.adv
+    · simp only [hq, if_true]
+      exact ⟨h0, h1, h2, h3⟩
+    · simp only [hq, if_false]
+      exact ⟨h0, h1, h2, h3⟩
+
+theorem inv_onHeaders {adv : Nat} {s : Srv} (h : SrvInv adv s) (sid : Nat) (es : Bool) (cls : ReqClass)
+    (hp hd early : Bool) : SrvInv adv (s.onHeaders sid es cls hp hd early).1 := by
+  unfold Srv.onHeaders
+  split
+  · exact inv_conn h 1
+  split
+  · exact inv_close h sid
+  split
+  · exact h
+  split
+  · exact inv_conn h 1
+  split
+  · split
+    · exact inv_close h sid
+    · split
+      · exact inv_close h sid
+      · exact inv_map h _
+  · split
+    · exact inv_conn h 1
+    · obtain ⟨h0, h1, h2, h3⟩ := h
+      simp only
+      split
+      · exact ⟨h0, h1, h2, h3⟩
+      · rename_i hlim
+        split
+        · exact ⟨h0, h1, h2, h3⟩
+        · apply inv_schedule
+          refine ⟨h0, h1, h2, ?_⟩
+          show (s.streams ++ [(⟨sid, es, hd⟩ : Strm)]).length ≤ adv
+          have : ¬ (s.streams.length + 1 > s.sched.adv) := hlim
+          simp
+          omega
+
+theorem inv_onHandlerExit {adv : Nat} {s : Srv} (h : SrvInv adv s) (sid : Nat) (p : Bool) :
+    SrvInv adv (s.onHandlerExit sid p).1 := by
+  obtain ⟨h0, h1, h2, h3⟩ := h
+  unfold Srv.onHandlerExit
+  by_cases hr : s.running.contains sid = true
+  · simp only [hr, Bool.not_true, Bool.false_eq_true, if_false]
+    have hmem : sid ∈ s.running := by simpa using hr
+    have hlen : (s.running.erase sid).length + 1 = s.running.length := by
+      rw [List.length_erase_of_mem hmem]
+      have : 0 < s.running.length := List.length_pos_of_mem hmem
+      omega
+    split
+    · exact inv_handlerDone (s := { s with running := s.running.erase sid }) h0 h1
+        (by show (s.running.erase sid).length + 1 ≤ s.sched.cur; omega) h3
+    · have hcl : (s.streams.filter (fun t => t.sid != sid)).length ≤ s.streams.length := List.length_filter_le _ _
+      exact inv_handlerDone (s := ({ s with running := s.running.erase sid } : Srv).closeStream sid) h0 h1
+        (by show (s.running.erase sid).length + 1 ≤ s.sched.cur; omega)
+        (by show (s.streams.filter _).length ≤ adv; omega)
+  · simp only [hr, Bool.not_false, if_true]
+    exact ⟨h0, h1, h2, h3⟩
+
+theorem inv_step {adv : Nat} {s : Srv} (h : SrvInv adv s) (i : In) : SrvInv adv (s.step i).1 := by
+  have arm : ∀ t : Srv, SrvInv adv t → SrvInv adv t.armTimer := by
+    intro t ht
+    unfold Srv.armTimer
+    split
+    · exact ht
+    · exact ht
+  have core : SrvInv adv (s.stepCore i).1 := by
+    cases i <;> simp only [Srv.stepCore]
+    case headers sid es cls hp hd early =>
+      split
+      · exact h
+      · exact inv_onHeaders h sid es cls hp hd early
+    case handlerWrite sid =>
+      unfold Srv.onHandlerWrite
+      split
+      · split
+        · exact inv_close h sid
+        · exact h
+      · exact h
+    case data sid es =>
+      split
+      · exact h
+      · unfold Srv.onData
+        split
+        · exact h
+        split
+        · exact inv_conn h 1
+        split
+        · exact h
+        · split
+          · exact inv_close h sid
+          · split
+            · exact inv_map h _
+            · exact h
+    case rst sid =>
+      split
+      · exact h
+      · unfold Srv.onRst
+        split
+        · exact inv_conn h 1
+        split
+        · exact h
+        split
+        · exact inv_conn h 1
+        · exact inv_close h sid
+    case ping d =>
+      split
+      · exact h
+      · exact h
+    case pingAck => exact h
+    case settings v =>
+      split
+      · exact h
+      · split
+        · exact h
+        · exact inv_conn h v
+    case settingsAck =>
+      split
+      · exact h
+      · split
+        · exact inv_conn h 1
+        · exact h
+    case windowUpdate sid inc =>
+      split
+      · exact h
+      · unfold Srv.onWindowUpdate
+        split
+        · split
+          · exact inv_conn h 1
+          · exact h
+        split
+        · exact inv_close h sid
+        split
+        · exact h
+        split
+        · exact inv_conn h 1
+        · exact h
+    case priority sid dep =>
+      split
+      · exact h
+      · unfold Srv.onPriority
+        split
+        · exact inv_conn h 1
+        split
+        · exact h
+        split
+        · exact inv_close h sid
+        · exact h
+    case goaway =>
+      split
+      · exact h
+      · split
+        · exact h
+        · exact h
+    case handlerExit sid p => exact inv_onHandlerExit h sid p
+    case sleep ms =>
+      obtain ⟨h0, h1, h2, h3⟩ := h
+      split
+      · split
+        · exact ⟨h0, h1, h2, by show ([] : List Strm).length ≤ adv; simp⟩
+        · exact ⟨h0, h1, h2, h3⟩
+      · exact ⟨h0, h1, h2, h3⟩
+  unfold Srv.step
+  split
+  · exact h
+  · exact arm _ core
+
+/-- run the accounting model over a history of client frames and handler completions -/
+def srvRun (s : Srv) (ins : List In) : Srv := ins.foldl (fun s i => (s.step i).1) s
+
+/-- **Mechanism theorem (serve loop)**: for every history of client frames and handler
+completions, the user handlers running never exceed `curHandlers`, which never exceeds the
+advertised limit, and at most `advMaxStreams` client streams are open. -/
+theorem srv_bounds (adv : Nat) (ins : List In) :
+    (srvRun (Srv.init adv) ins).running.length ≤ adv ∧
+    (srvRun (Srv.init adv) ins).sched.cur ≤ adv ∧
+    (srvRun (Srv.init adv) ins).streams.length ≤ adv := by
+  have : ∀ (ins : List In) (s : Srv), SrvInv adv s → SrvInv adv (srvRun s ins) := by
+    intro ins
+    induction ins with
+    | nil => intro s h; exact h
+    | cons i r ih => intro s h; exact ih _ (inv_step h i)
+  obtain ⟨_, k1, k2, k3⟩ := this ins (Srv.init adv) ⟨rfl, by simp [Srv.init], by simp [Srv.init], by simp [Srv.init]⟩
+  exact ⟨by omega, k1, k3⟩
+
+/-- **Decision logic**: a malformed request never reaches `scheduleHandler`: the scheduler state
+and the set of running handlers are untouched. -/
+theorem malformed_never_scheduled (s : Srv) (sid : Nat) (es : Bool) (cls : ReqClass) (hp hd early : Bool)
+    (hc : cls = ReqClass.mw ∨ cls = ReqClass.mp) :
+    (s.onHeaders sid es cls hp hd early).1.sched = s.sched ∧
+    (s.onHeaders sid es cls hp hd early).1.running = s.running := by
+  unfold Srv.onHeaders
+  rcases hc with rfl | rfl
+  · by_cases he : early = true <;> simp [he, Srv.connError, Srv.closeStream]
+  · simp
+    split
+    · simp
+    split
+    · simp [Srv.connError]
+    split
+    · split
+      · simp [Srv.closeStream]
+      · split <;> simp [Srv.closeStream]
+    · split
+      · simp [Srv.connError]
+      · split <;> simp
+
+/-- a request is classified `ok` only if none of the three rejecting checks fires; in
+particular it carries no connection-specific field and TE is absent, empty or "trailers". -/
+theorem classify_ok_iff (fs : List Field) :
+    classify fs = ReqClass.ok ↔ (wireInvalid fs = false ∧ pseudoInvalid fs = false ∧ connSpecific fs = false) := by
+  unfold classify
+  cases wireInvalid fs <;> cases pseudoInvalid fs <;> cases connSpecific fs <;> simp
+
+theorem classify_ok_no_connection_header (fs : List Field) (h : classify fs = ReqClass.ok) :
+    ∀ f ∈ regularFields fs, connHeadersLower.contains f.name = false := by
+  have := ((classify_ok_iff fs).mp h).2.2
+  unfold connSpecific at this
+  simp at this
+  intro f hf
+  have := this.1 f hf
+  simpa using this
+
+
+/-! ## T-tie: constants, comparison operators and tables regenerated from server.go -/
+
+theorem gen_limits_eq :
+    NetVerif.Gen.C15.maxQueuedControlFrames = maxQueuedControlFrames ∧
+    NetVerif.Gen.C15.defaultMaxStreams = defaultMaxStreams ∧
+    NetVerif.Gen.C15.unstartedFactor = unstartedFactor := ⟨rfl, rfl, rfl⟩
+
+/-- the comparisons the models hard-wire: `curHandlers < maxHandlers` (schedule),
+`len(unstartedHandlers) > 4*advMaxStreams`, `curHandlers >= maxHandlers` (handlerDone break),
+`queuedControlFrames > maxQueuedControlFrames`, `curClientStreams+1 > advMaxStreams`. -/
+theorem gen_ops_eq :
+    NetVerif.Gen.C15.slotOp = "<" ∧ NetVerif.Gen.C15.queueOp = ">" ∧ NetVerif.Gen.C15.ctlOp = ">" ∧
+    NetVerif.Gen.C15.doneOp = ">=" ∧
+    NetVerif.Gen.C15.streamLimitCheck = "sc.curClientStreams + 1 > sc.advMaxStreams" := by decide
+
+theorem gen_connHeaders_eq : NetVerif.Gen.C15.connHeadersLower = connHeadersLower := by decide
+
+theorem gen_te_eq :
+    NetVerif.Gen.C15.teKeyLower = sTe ∧ NetVerif.Gen.C15.teAccepted = [sTrailers, []] := by decide
+
+/-! ## non-vacuity -/
+
+private def fGet : List Field :=
+  [⟨58 :: sMethod, [71, 69, 84]⟩, ⟨58 :: sScheme, sHttps⟩, ⟨58 :: sPath, [47]⟩, ⟨[120, 45, 115, 105, 100], [49]⟩]
+
+example : classify fGet = ReqClass.ok := by decide
+example : classify (fGet ++ [⟨[88, 45, 85, 112], [49]⟩]) = ReqClass.mw := by decide          -- "X-Up"
+example : classify (fGet.drop 1) = ReqClass.mp := by decide                                   -- no :method
+example : classify (fGet ++ [⟨sTe, [103, 122, 105, 112]⟩]) = ReqClass.cs := by decide         -- te: gzip
+example : classify (fGet ++ [⟨sTe, sTrailers⟩]) = ReqClass.ok := by decide
+example : classify (fGet ++ [⟨[117, 112, 103, 114, 97, 100, 101], [104, 50, 99]⟩]) = ReqClass.cs := by decide  -- upgrade
+
+/-- an accepted trace with two handlers under limit 2, a reset stream, PING and SETTINGS -/
+example : (Mon.run {} [.sSettings (some 2), .cHeaders 1 false .ok true, .hStart 1, .cHeaders 3 true .ok true,
+    .hStart 3, .cRst 1, .cPing 7, .sPingAck 7, .cSettings 0, .sSettingsAck, .quiesce, .hFinish 1,
+    .sHeaders 3 false, .sData 3 true, .hFinish 3, .quiesce]).isSome = true := by decide
+/-- rejected: a third handler under limit 2 -/
+example : (Mon.run {} [.sSettings (some 2), .hStart 1, .hStart 3, .hStart 5]).isSome = false := by decide
+/-- rejected: DATA after the client reset the stream -/
+example : (Mon.run {} [.sSettings (some 2), .cHeaders 1 false .ok true, .hStart 1, .cRst 1, .sData 1 false]).isSome = false := by decide
+/-- rejected: an unanswered PING at a live quiescent point; a handler start for a malformed request -/
+example : (Mon.run {} [.sSettings (some 2), .cPing 7, .quiesce]).isSome = false := by decide
+example : (Mon.run {} [.sSettings (some 2), .cHeaders 1 true .mp true, .hStart 1]).isSome = false := by decide
+/-- the scheduler model queues the second request under limit 1 and starts it on `handlerDone` -/
+example : (schedTrace { adv := 1 } [.schedule ⟨1, .user⟩, .schedule ⟨3, .user⟩, .done (fun _ => true)]) =
+    [.hStart 1, .hFinish 0, .hStart 3] := by decide
 
 end NetVerif.Proofs.C15
